@@ -404,8 +404,19 @@ def filter_citations(citations: List[CitationBase]) -> List[CitationBase]:
     if not citations:
         return citations
 
+    # citations with identical spans: keep one, preferring anything to a
+    # reference citation (the stable sort puts reference citations first, so
+    # that a non-reference citation is the last writer)
     citations = list(
-        {citation.span(): citation for citation in citations}.values()
+        {
+            citation.span(): citation
+            for citation in sorted(
+                citations,
+                key=lambda citation: not isinstance(
+                    citation, ReferenceCitation
+                ),
+            )
+        }.values()
     )
     sorted_citations = sorted(
         citations, key=lambda citation: citation.full_span()
